@@ -20,6 +20,8 @@ class _R:
 R = _R(Lcg(1))
 # probability with which the encoder emits extreme / invalid codes (C08 only; 0 = valid syntax only)
 EXTREME = 0.0
+# probability of a huge signed coefficient integer part (C01: parse/write asymmetry of se(v) above 2^53)
+BIG_SE = 0.0
 
 
 def seed(lcg):
@@ -67,7 +69,11 @@ def val(n):  # boundary-biased n-bit value
     return pick(0,m,1,m-1,1<<(n-1),(1<<(n-1))-1,R.randint(0,m),R.randint(0,m))
 def uev(): return pick(0,1,2,3,R.randint(0,40),R.randint(0,70000), R.randint(0,2**33))
 def sev(): 
-    v=pick(0,1,-1,2,-2,R.randint(-40,40),R.randint(-2**20,2**20),R.randint(-2**40,2**40)); return v
+    v=pick(0,1,-1,2,-2,R.randint(-40,40),R.randint(-2**20,2**20),R.randint(-2**40,2**40))
+    # rarely: integer parts whose exp-Golomb code number exceeds 2^53 (third-party get_se goes through f64)
+    if BIG_SE and R.random() < BIG_SE:
+        v=pick(-(2**52+1), 2**52+1, -(2**53+3), 2**55+1, -(2**60+5), 2**61+7, -(2**52), 2**52)
+    return v
 
 def gen_block(level, w, js):
     def f(name,n,v=None):
